@@ -21,6 +21,7 @@ from simverif.irsim.universe import (
     Universe,
     canon,
     check_inv,
+    check_queries,
     snap_all,
     snap_tree,
     struct_hash,
@@ -51,6 +52,7 @@ class IrEngineBase(Engine):
     mode = "C01"
     group_bias: dict[str, int] = {}
     long_histories = False
+    judge_queries = False
 
     def prepare(self, tier: str, seed: int) -> None:
         # thorough: histories of up to 240 calls (quick: up to 80)
@@ -79,6 +81,8 @@ class IrEngineBase(Engine):
         C.build_initial(u, cfg)
         try:
             check_inv(u)
+            if self.judge_queries:
+                check_queries(u)
         except InvFail as e:
             res.violation = Violation(f"inv:{e.code}", "initial-build", 0, e.detail, f"inv:{e.code}:initial-build")
             res.trace = tr
@@ -151,6 +155,15 @@ class IrEngineBase(Engine):
                 inv: InvFail | None = None
             except InvFail as e:
                 inv = e
+            if inv is None and ok and self.judge_queries and step % 3 == 2 and not u.has_cycle():
+                # the public read API must show what the raw fields hold
+                try:
+                    st["reach.query_comparisons"] += check_queries(u, step)
+                except InvFail as e:
+                    inv = e
+                except RecursionError:
+                    st["inconclusive.resource_exhaustion"] += 1
+                    break
             if u.has_cycle():
                 st["ended.outside_domain_cycle"] += 1
                 if tr is not None:
@@ -276,6 +289,7 @@ class C01Engine(IrEngineBase):
         "thorough": {"runs": 1_500_000, "wall_cap_s": 1750, "samples": 2},
     }
     group_bias = {"clone": 1, "dictedit": 0}
+    judge_queries = True
 
     def rule(self) -> str:
         return (
